@@ -1,4 +1,5 @@
 import OomdProofs.RsCgroup
+import OomdProofs.Path
 import OomdProps.C02
 import OomdModel.Generated.Consts
 
@@ -224,18 +225,19 @@ target from (`cgroup`; regenerated from Ruleset.cpp by tools/extract.py) -/
 theorem default_target_arg_name : OomdModel.Generated.rulesetCgroupArgName = "cgroup" := by decide
 
 /-- **Default target.**  Whenever an instance is created for path `p`, each action copy is initialised
-with the template's arguments plus `cgroup ↦ p`, unless the configuration of that action names a
+with the template's arguments plus `cgroup ↦` the pattern that names exactly `p` (`literalPattern`: `p` with every character
+`glob(3)` interprets escaped, see `default_argument_names_the_cgroup`), unless the configuration of that action names a
 cgroup itself, in which case it keeps its own; detector copies get the template's arguments
 unchanged.  (That `OomdContext::getRulesetCgroup()` / `ActionContext::target_cgroup` is `p` for every
 call of the instance is the meaning of `CEv.run p`, compared with the code in the correspondence run.) -/
 theorem default_target (F : Fixes) (cfg : Cfg) (w : CgWorld) (ti : CgTickIn) (p : Path) (g x : Nat) (arg : Option Path)
     (he : CEv.init p g x arg ∈ (cgTick F cfg w ti).evs) :
     (x ∈ dets cfg ∧ arg = cfg.own x) ∨
-    (x ∈ cfg.rs.actions ∧ arg = some (match cfg.own x with | some c => c | none => p)) := by
+    (x ∈ cfg.rs.actions ∧ arg = some (match cfg.own x with | some c => c | none => literalPattern p)) := by
   simp only [cgTick, runPhase, List.mem_append, prerunPhase] at he
   have hcreate : ∀ q g', CEv.init p g x arg ∈ createEvs cfg q g' →
       (x ∈ dets cfg ∧ arg = cfg.own x) ∨
-      (x ∈ cfg.rs.actions ∧ arg = some (match cfg.own x with | some c => c | none => p)) := by
+      (x ∈ cfg.rs.actions ∧ arg = some (match cfg.own x with | some c => c | none => literalPattern p)) := by
     intro q g' h
     simp only [createEvs, List.mem_append, List.mem_map] at h
     rcases h with (⟨d, hd, hd'⟩ | ⟨a, ha, ha'⟩) | h
@@ -260,6 +262,34 @@ theorem default_target (F : Fixes) (cfg : Cfg) (w : CgWorld) (ti : CgTickIn) (p 
     · simp at he
   · obtain ⟨q, g', h⟩ := loop_init_shape F cfg ti.sc ti.ms _ _ he rfl
     exact hcreate q g' h
+
+/-- **The default argument names the instance's cgroup and nothing else**, whatever characters its name contains: each
+component of `literalPattern p`, read by `fnmatch` as the plugins' `resolveWildcard` reads it (C16's model), matches the
+corresponding component of `p` and no other name.  (On the pinned tree the path was handed over unescaped: for a cgroup called
+`foo\x2dbar.service` - systemd's escaping - the action's pattern matched nothing; repaired by a `fix:` commit, see
+known_findings.txt.) -/
+theorem default_argument_names_the_cgroup (comp name : List Char) :
+    OomdModel.Path.fnm (OomdModel.Path.globEscape comp) name = true ↔ name = comp :=
+  OomdModel.Path.fnm_globEscape comp name
+
+/-- escaping adds no path separator: the components of the pattern are the escaped components of the path -/
+theorem escape_keeps_separators (s : List Char) :
+    (OomdModel.Path.globEscape s).count '/' = s.count '/' := by
+  induction s with
+  | nil => rfl
+  | cons c cs ih =>
+    have : OomdModel.Path.globEscape (c :: cs) = OomdModel.Path.escChar c ++ OomdModel.Path.globEscape cs := by
+      simp [OomdModel.Path.globEscape]
+    rw [this, List.count_append, ih]
+    unfold OomdModel.Path.escChar
+    split
+    · rename_i h
+      have hc : c ≠ '/' := by
+        intro e; subst e; simp at h
+      simp [List.count_cons, hc]
+    · simp [List.count_cons]; omega
+
+example : OomdModel.Path.globEscape "w\\x2dq[1]".toList = "w\\\\x2dq\\[1]".toList := by decide
 
 /-- **Discard is silent.**  For a path that does not match on a tick - whether its cgroup was removed,
 lost the attribute or cannot be opened, and however many other paths disappear on the same tick -
